@@ -44,17 +44,12 @@ extern "C" int harness()
     SrcNondet s;
     install(c, s);
     __vf_assume(INV_PRE(c));
-    // construction-time constants (read without the lock by capacity()): the size field of the fixed container
-#if T_CAPPED
-#if T_POLICY == P_FIFO
-    __vf_freeze(&c.m_fifo_list.m_size, sizeof(size_t));
-#elif T_POLICY == P_LFU
-    __vf_freeze(&c.m_open_list.m_size, sizeof(size_t));
-#elif T_POLICY == P_LFUDA
-    __vf_freeze(&c.m_dynamic_age_list.m_size, sizeof(size_t));
-#else
+    // construction-time constants (read without the lock by capacity()): the size of the slot vector, which no member
+    // function ever changes.  The node lists of fifo / lfu / lfuda are NOT constants in this sense: splice() is a non-const
+    // member function and libstdc++'s implementation increments and decrements the list's size field even for a same-list
+    // splice, so a capacity() that reads list::size() must hold the lock like every other method.
+#if T_CAPPED && T_POLICY != P_FIFO && T_POLICY != P_LFU && T_POLICY != P_LFUDA
     __vf_freeze(&c.m_elements.m_size, sizeof(size_t));
-#endif
 #endif
     __vf_expect_mutex(&c.m_lock);
     __vf_publish(&c);
